@@ -79,13 +79,14 @@ type deepMode int
 const (
 	deepReflect  deepMode = iota // reflect.DeepEqual
 	deepSemantic                 // equality.Semantic.DeepEqual: nil == empty; Time/Quantity by value
+	deepDerive                   // equality.Semantic.DeepDerivative(a, b): what is unset or empty in a is ignored
 )
 
 func (i *interpreter) deepEqual(t types.Type, a, b value, mode deepMode, depth int) value {
 	if depth > 60 {
 		panic(unsupported("DeepEqual recursion too deep (cyclic value?)"))
 	}
-	if mode == deepSemantic {
+	if mode == deepSemantic || mode == deepDerive {
 		switch typeKey(t) {
 		case "k8s.io/apimachinery/pkg/apis/meta/v1.Time", "k8s.io/apimachinery/pkg/apis/meta/v1.MicroTime":
 			ta := a.(structure)[0].(*nativeVal).v.Interface().(time.Time)
@@ -98,9 +99,17 @@ func (i *interpreter) deepEqual(t types.Type, a, b value, mode deepMode, depth i
 		if u.Kind() == types.UnsafePointer {
 			return true
 		}
+		if mode == deepDerive && u.Info()&types.IsString != 0 {
+			if as, ok := a.(string); ok && as == "" {
+				return true
+			}
+		}
 		return i.eqv(t, a, b)
 	case *types.Pointer:
 		pa, pb := a.(*value), b.(*value)
+		if mode == deepDerive && pa == nil {
+			return true
+		}
 		if pa == nil || pb == nil {
 			return pa == pb
 		}
@@ -144,7 +153,14 @@ func (i *interpreter) deepEqual(t types.Type, a, b value, mode deepMode, depth i
 		if mode == deepReflect && (sa == nil) != (sb == nil) {
 			return false
 		}
-		if len(sa) != len(sb) {
+		if mode == deepDerive {
+			if len(sa) == 0 {
+				return true
+			}
+			if len(sa) > len(sb) {
+				return false
+			}
+		} else if len(sa) != len(sb) {
 			return false
 		}
 		var r value = true
@@ -160,7 +176,14 @@ func (i *interpreter) deepEqual(t types.Type, a, b value, mode deepMode, depth i
 		if mode == deepReflect && (ma == nil) != (mb == nil) {
 			return false
 		}
-		if ma.len() != mb.len() {
+		if mode == deepDerive {
+			if ma.len() == 0 {
+				return true
+			}
+			if ma.len() > mb.len() {
+				return false
+			}
+		} else if ma.len() != mb.len() {
 			return false
 		}
 		var r value = true
@@ -179,6 +202,9 @@ func (i *interpreter) deepEqual(t types.Type, a, b value, mode deepMode, depth i
 		return r
 	case *types.Interface:
 		ia, ib := a.(iface), b.(iface)
+		if mode == deepDerive && ia.t == nil {
+			return true
+		}
 		if ia.t == nil || ib.t == nil {
 			return ia.t == nil && ib.t == nil
 		}
@@ -230,6 +256,9 @@ func registerReflectIntrinsics(e *Engine) {
 	de := func(mode deepMode) intrinsic {
 		return func(fr *frame, args []value) value {
 			a, b := args[len(args)-2].(iface), args[len(args)-1].(iface)
+			if mode == deepDerive && a.t == nil {
+				return true
+			}
 			if a.t == nil || b.t == nil {
 				return a.t == nil && b.t == nil
 			}
@@ -241,9 +270,7 @@ func registerReflectIntrinsics(e *Engine) {
 	}
 	e.reg("reflect.DeepEqual", de(deepReflect))
 	e.reg("(k8s.io/apimachinery/third_party/forked/golang/reflect.Equalities).DeepEqual", de(deepSemantic))
-	e.reg("(k8s.io/apimachinery/third_party/forked/golang/reflect.Equalities).DeepDerivative", func(fr *frame, args []value) value {
-		panic(unsupported("DeepDerivative"))
-	})
+	e.reg("(k8s.io/apimachinery/third_party/forked/golang/reflect.Equalities).DeepDerivative", de(deepDerive))
 }
 
 // ------------------------------------------------------------------ JSON
